@@ -432,6 +432,8 @@ def run(cx, tier='quick'):
     rep.floor('MODELS-OWN', 10)
     rep.floor('SEL', 4)
     rep.assumptions += ['a borrow of a place expression `self.f` has the address of field f', 'match ergonomics: binding through &self / &mut self yields & / &mut to the field']
+    from .binders import check_binder_injectivity
+    check_binder_injectivity(cx, rep, ['::deref::', '::deref_mut::'])
     return rep
 
 
